@@ -92,7 +92,12 @@ func (r *vReq) apply(g *zzmodel.Ghost) {
 // bound, from every initial key state reachable by a short history.
 func VerifC01Race() {
 	w := vNewWorldTSO(zzverif.Param("keys", 1), func(t tso.TSO) tso.TSO { return &vYieldTSO{t} })
-	w.history()
+	if zzverif.Param("scenario", 0) == 1 {
+		// fixed two- and three-write key histories: deleted (mark present), two versions, re-created
+		w.vScenario(zzverif.Choose("scenario", 3))
+	} else {
+		w.history()
+	}
 	g0 := w.g.Clone()
 	w.s.Yield = zzverif.YieldAt
 	n := zzverif.Param("clients", 2)
